@@ -2,10 +2,10 @@
 import json
 import os
 
-from gen.progs import gen_program
+from gen.progs import gen_layout_program, gen_program
 from gen.rng import Rng
 from lib.e2e import run_pipeline, same_behaviour
-from lib.vlib import Check, check_props
+from lib.vlib import Check, check_props, coq_eval, coq_result, vh
 
 PID = 'C01'
 COMPARABLE = ('return', 'panic')
@@ -49,6 +49,84 @@ def compare_src_wasm(ck, prog, rec, label):
     return True
 
 
+def layout_correspondence(ck, progs):
+    """Layer B: the layouts the real compiler chose (vh mir-types) satisfy the boolean well-formedness check
+    whose soundness is a theorem (C01_wf_layoutsb_sound), i.e. the hypotheses of C01_discriminate_correct /
+    C01_encode_injective hold for what the compiler actually did."""
+    import re
+    jobs = [{'id': i, 'sources': p['sources'], 'entry': p['entry']} for i, p in enumerate(progs)]
+    rc, out = vh(['mir-types'], input='\n'.join(json.dumps(j) for j in jobs) + '\n', timeout=900)
+    dumps = {}
+    for line in out.splitlines():
+        if line.startswith('{'):
+            d = json.loads(line)
+            dumps[d['id']] = d
+    cases = []
+    for i, p in enumerate(progs):
+        d = dumps.get(i)
+        if not d or 'types' not in d:
+            continue
+        names = {t['name']: k for k, t in enumerate(d['types']) if 'struct' in t or 'enum' in t}
+
+        def ty(x):
+            if x in ('int', 'i31'):
+                return 'TInt'
+            if x in names:
+                return 'TId %d' % names[x]
+            return 'TStr'          # strings, closures, Vec: opaque references, never unboxed payloads
+        env, lay = [], []
+        nun = 0
+        for t in d['types']:
+            if t['name'] not in names:
+                continue
+            k = names[t['name']]
+            if t.get('enum') == []:
+                # builtin reference types (_Str) are registered as enums without variants: always pointers
+                env.append('(%d, DStruct [])' % k)
+                continue
+            if 'struct' in t:
+                env.append('(%d, DStruct [%s])' % (k, '; '.join(ty(x) for x in t['struct'])))
+                continue
+            vs, ls = [], []
+            for v in t['enum']:
+                if v == 'i31':
+                    vs.append('[]')
+                    ls.append('RInt31')
+                elif 'unboxed' in v:
+                    nun += 1
+                    vs.append('[%s]' % ty(v['unboxed']))
+                    ls.append('RUnboxed %d' % names.get(v['unboxed'], 99999))
+                else:
+                    fs = '; '.join(ty(x) for x in v['boxed'][1:])      # field 0 is the i32 tag
+                    vs.append('[%s]' % fs)
+                    ls.append('RBoxed [%s]' % fs)
+            env.append('(%d, DEnum [%s])' % (k, '; '.join(vs)))
+            lay.append('(%d, [%s])' % (k, '; '.join(ls)))
+        cases.append((i, '([%s], [%s])' % ('; '.join(env), '; '.join(lay)), nun, d['types']))
+        ck.count('layout:enums', len(lay))
+        ck.count('layout:unboxed_variants', nun)
+    if not cases:
+        return
+    body = ('From Coq Require Import List. Import ListNotations.\nFrom SV Require Import C01.Model C01.Corr.\n'
+            'Definition dumps : list (env * layouts) := [\n%s].\n'
+            'Eval vm_compute in (map (fun c => check_dump (fst c) (snd c)) dumps).\n' % ';\n'.join(c[1] for c in cases))
+    rc, out = coq_eval('c01_layouts', body)
+    res = coq_result(out) if rc == 0 else None
+    if res is None:
+        ck.obligation('model-evaluation(layouts)', False, out[-600:])
+        return
+    flags = re.findall(r'true|false', res)
+    if len(flags) != len(cases):
+        ck.obligation('model-evaluation(layouts)', False, 'could not parse results')
+        return
+    for (i, _, nun, types), f in zip(cases, flags):
+        ck.case(['layout', progs[i]['sources']], nun > 0)
+        if f != 'true':
+            ck.disagree('C01.Corr.check_dump (well-formed layouts) on the type definitions the compiler produced',
+                        {'sources': progs[i]['sources'], 'entry': progs[i]['entry']}, 'wf_layoutsb = true', {'types': types})
+    ck.obligation('layout correspondence ran', True, '%d programs' % len(cases))
+
+
 def run(tier, seed, replay=None):
     ck = Check(PID, tier, seed, level='proof')
     ck.checker_cmd = 'make -C /verif/coq theories/C01/Props.vo (coqc 8.16.1) + Print Assumptions per theorem'
@@ -75,10 +153,11 @@ def run(tier, seed, replay=None):
         for i in range(n):
             r = rng.fork()
             opts = {'big': i % 7 == 0, 'nfun': 4 + i % 3, 'depth': 2 + i % 3}
-            progs.append(gen_program(r, opts))
+            progs.append(gen_layout_program(r) if i % 3 == 2 else gen_program(r, opts))
     ck.rule = ('generated well-typed programs (recursive/generic enums, structs, interfaces with bounded generics, closures, tuples, '
                'nested and or-patterns, tail/non-tail recursion, Str/Vec/Process builtins) with inputs fed through Str.toInt; '
                'distinct = distinct program text; non-trivial = accepted, compiled and compared (run not excluded)')
+    layout_correspondence(ck, progs)
     recs = run_pipeline(progs, 'c01', want_ts=False)
     compared = 0
     for prog, rec in zip(progs, recs):
